@@ -826,7 +826,8 @@ def nleaves(t):
     return 1 if t[0] == 'leaf' else (nleaves(t[2]) if t[0] == 'un' else nleaves(t[2]) + nleaves(t[3]))
 
 
-def fold_variant(t, mask, rng):
+def fold_variant(t, mask, rng, ctx=None):
+    """ctx: None (the value is the result), 'subr' (the value subscripts a load), 'subw' (it subscripts a store)"""
     setup, gvals, lvals = [], {}, {}
     e = build_tree(t, mask, rng, [0], setup, gvals, lvals)
     gv = sorted({s[1] for s in setup if s[0] == 'gvar'})
@@ -847,9 +848,17 @@ def fold_variant(t, mask, rng):
     if clash:
         return None
     tk = proc(True, [('val', 'p')], [], seq([ass(var('cn'), bi('+', var('cn'), num(1))), ret(var('p'))]))
+    if ctx == 'subr':
+        use = [ass(idx('t16', num(i)), num(100 + i)) for i in range(16)] + [ass(var('res'), idx('t16', e))]
+    elif ctx == 'subw':
+        use = [ass(idx('t16', num(i)), num(0)) for i in range(16)] + [ass(idx('t16', e), num(9)), ass(var('res'), num(0)), ass(var('j'), num(0)),
+               whl(bi('<', var('j'), num(16)), seq([iff(bi('=', idx('t16', var('j')), num(9)), ass(var('res'), bi('+', var('res'), bi('+', var('j'), num(1)))), skip()),
+                                                    ass(var('j'), bi('+', var('j'), num(1)))]))]
+    else:
+        use = [ass(var('res'), e)]
     procs = {'id': lib_procs()['id'], 'tk': tk,
-             'main': proc(False, [], ['res'] + lv, seq([ass(var('cn'), num(0))] + ss + [ass(var('res'), e), putc(var('cn')), exit_(var('res'))]), lvals)}
-    return program(gv + ['cn'], {'a': 4}, procs, gvals, None, ['id', 'tk', 'main'])
+             'main': proc(False, [], ['res', 'j'] + lv, seq([ass(var('cn'), num(0))] + ss + use + [putc(var('cn')), exit_(var('res'))]), lvals)}
+    return program(gv + ['cn'], {'a': 4, 't16': 16}, procs, gvals, None, ['id', 'tk', 'main'])
 
 
 def fold_trees(rng, tier):
@@ -906,6 +915,22 @@ def fold_trees(rng, tier):
         if r < 0.85:
             return ('bin', rng.choice(['and', 'or']), btree(d - 1), btree(d - 1))
         return ('un', '~', btree(d - 1))
+    # small-valued trees used as subscripts of a load / a store (the value must stay inside the array)
+    for op in ('+', '-'):
+        for a in (0, 1, 5, 9, 15):
+            for b in (0, 1, 4, 6):
+                v = a + b if op == '+' else a - b
+                if 0 <= v < 16:
+                    out.append(('subr:%s:%d:%d' % (op, a, b), ('bin', op, ('leaf', a), ('leaf', b))))
+                    out.append(('subw:%s:%d:%d' % (op, a, b), ('bin', op, ('leaf', a), ('leaf', b))))
+                    for c in (1, 3):
+                        for op2 in ('+', '-'):
+                            w = v + c if op2 == '+' else v - c
+                            if 0 <= w < 16:
+                                out.append(('subr:%s%s:%d:%d:%d' % (op, op2, a, b, c), ('bin', op2, ('bin', op, ('leaf', a), ('leaf', b)), ('leaf', c))))
+                                w2 = c + v if op2 == '+' else c - v
+                                if 0 <= w2 < 16:
+                                    out.append(('subw:%s%s:r:%d:%d:%d' % (op, op2, a, b, c), ('bin', op2, ('leaf', c), ('bin', op, ('leaf', a), ('leaf', b)))))
     n2, n3 = (1500, 500) if tier == "quick" else (60000, 40000)
     for i in range(n2):
         out.append(('d2:%d' % i, itree(2) if rng.random() < 0.6 else btree(2)))
@@ -929,7 +954,7 @@ def fold_cases(rng, tier):
                 if m not in seen:
                     seen.add(m); masks.append(m)
         for mi, m in enumerate(masks):
-            P = fold_variant(t, m, rng)
+            P = fold_variant(t, m, rng, ctx=tid.split(':')[0] if tid.startswith(('subr:', 'subw:')) else None)
             if P is None:
                 continue
             cases.append({'id': '%s/m%s' % (tid, ''.join('r' if i in m else 'c' for i in range(n))), 'group': tid,
